@@ -45,6 +45,8 @@ TRead ==
   /\ IsEvent("Read") /\ Consume /\ Keep /\ ctx' = [ctx EXCEPT !.d = Rec.diff]
   /\ Judge("C13") => Check(Rec.st \in {"ok", "err"}, "C13", "readmerge-crash")
   /\ Judge("C12") => Check(Rec.st = "ok", "C12", "read-call")
+  \* reader conformance: the hunks are those of the reader model (as a set: the order is the code's business)
+  /\ (Judge("C12") /\ Rec.st = "ok") => Note(SeqRange(Rec.diff) = SeqRange(CodeMergeHunks(ctx.p)), "C12", "reader-model")
 
 TApply ==
   /\ IsEvent("Apply") /\ Consume /\ Keep /\ UNCHANGED ctx
